@@ -155,6 +155,10 @@ class OnTheFlyMapper(argschema.ArgSchemaParser):
             pathlib.Path(reference_marker_dir).iterdir()
             if n.is_file()]
 
+        # directory listing order is arbitrary; the order of this list
+        # decides ties between reference files downstream
+        reference_marker_files.sort()
+
         if len(reference_marker_files) == 0:
             log.error("No reference marker files created")
 
